@@ -327,9 +327,13 @@ def check(pid, tier, seed, replay=None, only=None):
             inconclusive.append("unit %s: harness does not build against the current tree (see %s)" % (u["name"], r["log"]))
             uinfo["build_failed"] = True
             continue
-        finished = [x for x in r["reports"] if x.get("finished")]
+        finished = [x for x in r["reports"] if x.get("finished") and x.get("property") in (None, pid)]
         for rep in r["reports"]:
             rname = rep.get("unit", "?")
+            if rep.get("property") not in (None, pid):
+                # a monitor of another property riding on this workload (e.g. the C04 trace monitor on the
+                # C01 executions): it is judged by that property's own check, which runs the same unit
+                continue
             merged["evaluations"] += int(rep.get("evaluations", 0))
             merged["distinct_nontrivial"] += int(rep.get("distinct_nontrivial", 0))
             if rep.get("rule"):
@@ -360,7 +364,7 @@ def check(pid, tier, seed, replay=None, only=None):
             inconclusive.append("unit %s: watchdog fired after %.0fs (see %s)" % (u["name"], r["wall_s"], r["log"]))
         elif not finished:
             inconclusive.append("unit %s wrote no finished report (exit %s, see %s)" % (u["name"], r["exit"], r["log"]))
-        elif r["exit"] != 0 and not any(int(x.get("violations_total", 0)) for x in r["reports"]):
+        elif r["exit"] != 0 and not any(int(x.get("violations_total", 0)) for x in r["reports"]) and not u.get("shared_workload"):
             inconclusive.append("unit %s: go test exit %s without recorded violation (see %s)" % (u["name"], r["exit"], r["log"]))
         # races
         if r["races"]["total"]:
